@@ -321,6 +321,17 @@ class Expander:
                 multi.add(n.name)
             elif isinstance(n, ast.NamedExpr) and isinstance(n.target, ast.Name):
                 multi.add(n.target.id)
+        # values stored *into* a local container: name[k] = v, name.append(v), name.update(v) ...
+        self.flows = {}
+        for n in walk_no_nested(func_node):
+            if isinstance(n, ast.Assign):
+                for t in n.targets:
+                    if isinstance(t, (ast.Subscript, ast.Attribute)) and isinstance(t.value, ast.Name):
+                        self.flows.setdefault(t.value.id, []).append(n.value)
+            elif isinstance(n, ast.Call) and isinstance(n.func, ast.Attribute) and isinstance(n.func.value, ast.Name) \
+                    and n.func.attr in ("append", "extend", "update", "add", "insert", "setdefault"):
+                for a in list(n.args) + [k.value for k in n.keywords]:
+                    self.flows.setdefault(n.func.value.id, []).append(a)
         for m in multi | self.params:
             self.defs.pop(m, None)
         self.unique = {k: v[0] for k, v in self.defs.items() if len(v) == 1}
@@ -341,3 +352,16 @@ class Expander:
 
     def text(self, node) -> str:
         return norm(self.expand(node))
+
+    def closure(self, node):
+        """Every expression that may flow into `node` through local definitions (all definitions of a
+        multiply-defined local are followed): the may-derive-from closure."""
+        out, seen, todo = [], set(), [node]
+        while todo:
+            d = todo.pop()
+            out.append(d)
+            for n in ast.walk(d):
+                if isinstance(n, ast.Name) and isinstance(n.ctx, ast.Load) and n.id not in seen and (n.id in self.defs or n.id in self.flows):
+                    seen.add(n.id)
+                    todo += self.defs.get(n.id, []) + self.flows.get(n.id, [])
+        return out
